@@ -51,6 +51,11 @@ def check(repo: Repo, rep: Report) -> None:
     rep.ob("U1-resource-held", sub, f"{holder} = {res_var} between the two factory calls", ok,
            "the resource is not bound to the held disposable before the observable factory runs: if that factory fails the "
            "resource is never disposed")
+    for b_ in binds:
+        bad_ = [u(e) for e, p_ in b_.ctx.guards if isinstance(e, ast.Name) and e.id == res_var]
+        rep.ob("U1-resource-held", sub, f"`{short(b_.node)}` decided by the identity of the resource, not its truthiness", not bad_,
+               f"the created resource is bound to the subscription only if it is truthy (`if {res_var}:`): a resource that is falsy when "
+               f"created (an empty CompositeDisposable defines __len__) is never disposed")
     ok = bool(ofac) and [u(a) for a in ofac[0].node.args] == [res_var]
     rep.ob("U1-resource-held", sub, "observable_factory(resource)", ok, "the observable factory does not receive the created resource")
     rets = [s for s in sites(sub) if isinstance(s.node, ast.Return)]
@@ -92,6 +97,14 @@ def check(repo: Repo, rep: Report) -> None:
                                and resolve_callable(fsub, x.node.value.args[0]).fn is g for x in sites(fsub))
                     rep.ob("F1-finally-sites", fsub, "returns Disposable(<hook>)", held,
                            "the hook that runs the action is not (only) wrapped in the returned Disposable: it can run twice or never")
+    for g in fsub.walk():
+        if g.is_func:
+            for n in g.direct_nodes():
+                if isinstance(n, ast.Name) and n.id == "action" and isinstance(n.ctx, ast.Load) and g.owner("action") is not None \
+                        and not (isinstance(g.module.parents.get(n), ast.Call) and g.module.parents.get(n).func is n):
+                    rep.ob("F1-finally-sites", g, f"`action` handed on as a value in `{short(g.module.parents.get(n), 60)}`", False,
+                           "the finally-action is not invoked by finally_action_'s own hook (in a `finally` around the source's "
+                           "dispose) but handed to another disposable: when disposing the source raises, the action is skipped")
     # ---- do_finally ---------------------------------------------------------------
     df = repo.fn(DO, "do_finally")
     dsub = repo.fn(DO, "do_finally.subscribe")
